@@ -192,7 +192,7 @@ long runs of skipped segments",
         }),
         |c: &LabelCase| check_tokens(&to_ref(c)),
     );
-    let n = rep.n(50000, 1000000);
+    let n = rep.n(50000, 10000000);
     rep.run_prop(
         "random-labels",
         "random annotated sentences up to 60 characters with run-structured label vectors; same \
@@ -201,7 +201,7 @@ oracle and non-triviality rule",
         || gen::annotated_sentence(60, 3, true),
         |rs: &RefSentence| check_tokens(rs),
     );
-    let n = rep.n(6000, 60000);
+    let n = rep.n(6000, 600000);
     rep.run_prop(
         "after-predict",
         "generated models x texts: after predict no label is unknown and the tokens partition the \
@@ -226,6 +226,24 @@ text at the predicted word boundaries (non-trivial = >= 2 tokens)",
                 let _ = NB;
                 check_tokens(&rs)?;
                 many |= rs.labels.contains(&WB);
+                // a caller resets part of the decisions to unknown (boundaries_mut) and asks the
+                // same predictor again: after that prediction, too, nothing is unknown and the
+                // tokens are the same partition
+                let n_b = s.boundaries().len();
+                if n_b > 0 {
+                    let (lo, hi) = ((ti * 7 + 1) % n_b, (ti * 7 + 1) % n_b + 1 + (ti * 3) % 4);
+                    for b in s.boundaries_mut()[lo..hi.min(n_b)].iter_mut() {
+                        *b = vaporetto::CharacterBoundary::Unknown;
+                    }
+                    p.predict(&mut s);
+                    let rs2 = oracle::observe_sentence(&s);
+                    ensure!(
+                        !rs2.labels.contains(&UNK),
+                        "unknown label after predicting again (boundaries {lo}..{hi} had been reset to unknown)"
+                    );
+                    check_tokens(&rs2)?;
+                    ensure_eq!(rs2.labels, rs.labels, "second prediction of the same text gives other boundaries");
+                }
             }
             Ok(Info::new(many))
         },
